@@ -1,6 +1,7 @@
 From Coq Require Import ExtrOcamlBasic.
 From HV Require Import Base.Res Base.Str Model.Schema Model.Resolve.
+From HV Require Gen.FoldTable.
 Extraction Language OCaml.
 Extraction "../ocaml/build/c03_model.ml"
-  force_types ascii_lower build_table get_entry WFschema hedtag_init find_tag_entry
-  short_tag long_tag base_tag short_base_tag org_base_tag extension takes_value_child.
+  force_types FoldTable.py_fold build_table get_entry WFschema hedtag_init find_tag_entry
+  short_tag long_tag base_tag short_base_tag org_base_tag extension takes_value_child repaired unrepaired.
